@@ -104,6 +104,18 @@ class ScriptedRandom:
         return attr
 
 
+class NullScript:
+    """Stand-in used when the real generator is left in place."""
+    log = ()
+    unscripted = 0
+
+    def push(self, values):
+        pass
+
+    def reseed_private(self, seed):
+        pass
+
+
 class ScriptedNumpy:
     def __init__(self):
         self.random = ScriptedRandom()
